@@ -62,6 +62,51 @@ func HarnessC06Node() {
 	verif.Assert(uuid.Equal(a.UUID(), ua), "C06/node/uuid-deterministic")
 }
 
+// C06 (long values): nodes, predicates and text literals whose text is LEN
+// concrete bytes followed by one symbolic byte (so the difference sits behind
+// any fixed-size buffer an implementation might hash from): same UUID exactly
+// when the last byte is the same.
+func HarnessC06Long() {
+	n := []int{62, 63, 64, 65, 127, 128, 255, 256, 1023}[verif.Choice("len", 9)]
+	pad := make([]byte, n)
+	for i := range pad {
+		pad[i] = 'a' + byte(i%26)
+	}
+	x, y := verif.Byte("x"), verif.Byte("y")
+	verif.Assume(verif.And(verif.And(x > ' ', x < 0x7f), verif.And(y > ' ', y < 0x7f)))
+	verif.Assume(verif.And(verif.And(x != '<', x != '>'), verif.And(y != '<', y != '>')))
+	ta, tb := string(pad)+string([]byte{x}), string(pad)+string([]byte{y})
+	var ua, ub uuid.UUID
+	ok := true
+	switch verif.Choice("kind", 4) {
+	case 0: // long id
+		a, e1 := node.NewNodeFromStrings("/t", ta)
+		b, e2 := node.NewNodeFromStrings("/t", tb)
+		verif.Assume(e1 == nil && e2 == nil)
+		ok = noPanic("C06/long/uuid-defined", func() { ua, ub = a.UUID(), b.UUID() })
+	case 1: // long type
+		a, e1 := node.NewNodeFromStrings("/"+ta, "i")
+		b, e2 := node.NewNodeFromStrings("/"+tb, "i")
+		verif.Assume(e1 == nil && e2 == nil)
+		ok = noPanic("C06/long/uuid-defined", func() { ua, ub = a.UUID(), b.UUID() })
+	case 2: // long predicate id
+		a, e1 := predicate.NewImmutable(ta)
+		b, e2 := predicate.NewImmutable(tb)
+		verif.Assume(e1 == nil && e2 == nil)
+		ok = noPanic("C06/long/uuid-defined", func() { ua, ub = a.UUID(), b.UUID() })
+	default: // long text
+		a, e1 := literal.DefaultBuilder().Build(literal.Text, ta)
+		b, e2 := literal.DefaultBuilder().Build(literal.Text, tb)
+		verif.Assume(e1 == nil && e2 == nil)
+		ok = noPanic("C06/long/uuid-defined", func() { ua, ub = a.UUID(), b.UUID() })
+	}
+	if !ok {
+		return
+	}
+	verif.Reach("uuids")
+	verif.Assert(uuid.Equal(ua, ub) == (x == y), "C06/long/uuid-iff-equal")
+}
+
 var floatPool = []float64{0, math.Copysign(0, -1), 1.5, -1.5, math.Inf(1), math.Inf(-1), math.NaN(), 5e-324, math.MaxFloat64,
 	0.1234561, 0.1234562, 1, math.Nextafter(1, 2), 1e15, 1e15 + 0.125} // neighbours: values that agree in their first decimals / differ in the last bit
 
